@@ -18,7 +18,9 @@ import (
 	kubeinformers "k8s.io/client-go/informers"
 	coreinformers "k8s.io/client-go/informers/core/v1"
 	kubefake "k8s.io/client-go/kubernetes/fake"
+	corelisters "k8s.io/client-go/listers/core/v1"
 	"k8s.io/client-go/tools/cache"
+	"k8s.io/client-go/tools/record"
 	"k8s.io/client-go/util/workqueue"
 
 	apps "github.com/pingcap/advanced-statefulset/client/apis/apps/v1"
@@ -26,6 +28,7 @@ import (
 	pcfake "github.com/pingcap/advanced-statefulset/client/client/clientset/versioned/fake"
 	pcinformers "github.com/pingcap/advanced-statefulset/client/client/informers/externalversions"
 	pcappsinformers "github.com/pingcap/advanced-statefulset/client/client/informers/externalversions/apps/v1"
+	pcapplisters "github.com/pingcap/advanced-statefulset/client/client/listers/apps/v1"
 	sts "github.com/pingcap/advanced-statefulset/pkg/controller/statefulset"
 )
 
@@ -338,8 +341,102 @@ func runEvents(line string) (obs string) {
 		return runEventsHandler(fx, q, f)
 	case f[0] == "W" && len(f) == 3:
 		return runEventsWorker(fx, q, f)
+	case f[0] == "R" && len(f) == 4:
+		return runEventsLoop(f)
 	}
 	return "bad-case"
+}
+
+// countingControl counts the distinct sets whose reconcile reached the control.
+type countingControl struct {
+	mu   sync.Mutex
+	seen map[string]bool
+}
+
+func (c *countingControl) UpdateStatefulSet(set *apps.StatefulSet, pods []*v1.Pod) error {
+	c.mu.Lock()
+	c.seen[set.Namespace+"/"+set.Name] = true
+	c.mu.Unlock()
+	return nil
+}
+func (c *countingControl) ListRevisions(set *apps.StatefulSet) ([]*kubeapps.ControllerRevision, error) {
+	return nil, nil
+}
+func (c *countingControl) AdoptOrphanRevisions(set *apps.StatefulSet, revisions []*kubeapps.ControllerRevision) error {
+	return nil
+}
+func (c *countingControl) count() int {
+	c.mu.Lock()
+	defer c.mu.Unlock()
+	return len(c.seen)
+}
+
+// runEventsLoop: the controller's own Run loop.  case R|workers|before|after: `before` sets are enqueued before Run is
+// called, `after` more once it is running; every one of them must reach the control, Run must keep running until the stop
+// channel is closed, return after that, and leave the queue shut down.
+//
+//	obs  seen=<sets reconciled> early=<Run returned before stop 0/1> returned=<Run returned after stop 0/1> shutdown=<queue shut down 0/1> out=ok
+func runEventsLoop(f []string) string {
+	workers, before, after := atoi(f[1]), atoi(f[2]), atoi(f[3])
+	if workers < 1 || workers > 8 || before < 0 || after < 0 || before+after > 64 {
+		panic("bad run case")
+	}
+	kube, pc := kubefake.NewSimpleClientset(), pcfake.NewSimpleClientset()
+	setIdx := cache.NewIndexer(cache.MetaNamespaceKeyFunc, cache.Indexers{cache.NamespaceIndex: cache.MetaNamespaceIndexFunc})
+	podIdx := cache.NewIndexer(cache.MetaNamespaceKeyFunc, cache.Indexers{cache.NamespaceIndex: cache.MetaNamespaceIndexFunc})
+	pvcIdx := cache.NewIndexer(cache.MetaNamespaceKeyFunc, cache.Indexers{cache.NamespaceIndex: cache.MetaNamespaceIndexFunc})
+	var sets []*apps.StatefulSet
+	for i := 0; i < before+after; i++ {
+		set := evSet("n1", fmt.Sprintf("r%02d", i), fmt.Sprintf("u-r%02d", i))
+		set.Spec.Selector = evSelector("Mk=x")
+		sets = append(sets, set)
+		_ = setIdx.Add(set)
+	}
+	ssc := sts.VerifNewController(kube, pc, pcapplisters.NewStatefulSetLister(setIdx), corelisters.NewPodLister(podIdx),
+		corelisters.NewPersistentVolumeClaimLister(pvcIdx), record.NewFakeRecorder(1000))
+	ctl := &countingControl{seen: map[string]bool{}}
+	ssc.VerifSetControl(ctl)
+	for _, s := range sets[:before] {
+		ssc.VerifEnqueueStatefulSet(s)
+	}
+	stop := make(chan struct{})
+	done := make(chan struct{})
+	go func() {
+		defer close(done)
+		ssc.Run(workers, stop)
+	}()
+	waitFor := func(n int) {
+		deadline := time.Now().Add(20 * time.Second)
+		for ctl.count() < n && time.Now().Before(deadline) {
+			select {
+			case <-done: // Run is gone: whatever its workers still do, give them a moment and stop waiting
+				time.Sleep(300 * time.Millisecond)
+				return
+			default:
+			}
+			time.Sleep(2 * time.Millisecond)
+		}
+	}
+	waitFor(before)
+	for _, s := range sets[before:] {
+		ssc.VerifEnqueueStatefulSet(s)
+	}
+	waitFor(before + after)
+	early := false
+	select {
+	case <-done:
+		early = true
+	case <-time.After(30 * time.Millisecond):
+	}
+	seen := ctl.count()
+	close(stop)
+	returned := false
+	select {
+	case <-done:
+		returned = true
+	case <-time.After(20 * time.Second):
+	}
+	return fmt.Sprintf("seen=%d early=%s returned=%s shutdown=%s out=ok", seen, b2s(early), b2s(returned), b2s(ssc.VerifQueue().ShuttingDown()))
 }
 
 func runEventsHandler(fx *evFixture, q *recQueue, f []string) string {
@@ -661,6 +758,10 @@ func genEvMalformed(rng *rand.Rand) string {
 
 func genEvents(rng *rand.Rand, n int, emit func(string)) {
 	for i := 0; i < n; i++ {
+		if rng.Intn(2500) == 0 { // the controller's own Run loop (wall-clock bound: a few dozen milliseconds each)
+			emit(fmt.Sprintf("R|%d|%d|%d", 1+rng.Intn(4), rng.Intn(6), rng.Intn(6)))
+			continue
+		}
 		switch weighted(rng, 84, 15, 1) {
 		case 0:
 			emit(genEvHandler(rng))
